@@ -57,11 +57,36 @@ def mixed_class():
                 # boundary groups the user built himself (same element type and count as the mesh's own group, elements
                 # in another order): rows and columns must come from the group that carries the values
                 groups = [self._foreign_copy(g, spec["foreign"]) if g.dim < max(spec["dims"]) and g.dim > 0 else g for g in groups]
+            only = {}
+            if spec.get("patch"):
+                # boundary patches the user builds himself: two sub-sets of the boundary group with the same element type
+                # and the same number of elements, one carrying K and M terms (a Robin penalty), the other C and F terms (a
+                # dashpot, a load); with "travel" the patches move along the boundary from one assembly to the next
+                from EasyFEA.FEM import GroupElemFactory
+
+                cache = self.__dict__.setdefault("_patch_groups", {})
+                new = []
+                for g in groups:
+                    if 0 < g.dim < max(spec["dims"]) and g.Ne >= 4:
+                        k = g.Ne // 2
+                        shift = getattr(self, "patch_shift", 0) % g.Ne
+                        idx = np.roll(np.arange(g.Ne), -shift)
+                        for nm, sel, keep in (("A", idx[:k], (0, 2)), ("B", idx[k: 2 * k], (1, 3))):
+                            key = (id(g), nm, shift)
+                            if key not in cache:
+                                cache[key] = (g, GroupElemFactory.Create(g.elemType, np.asarray(g.connect)[sel].copy(), np.asarray(self.mesh.coord).copy()))
+                            new.append(cache[key][1])
+                            only[id(cache[key][1])] = keep
+                    else:
+                        new.append(g)
+                groups = new
             for gi, g in enumerate(groups):
                 n = g.nPe * dof_n
                 slots = []
                 for si in range(4):
                     present = spec["slots"].get(f"{g.dim}:{si}", True)
+                    if id(g) in only:
+                        present = si in only[id(g)]
                     if not present:
                         slots.append(None)
                         continue
@@ -148,6 +173,7 @@ class AsmWorld(World):
                 "vseed": int(rng.integers(1 << 30)),
                 "complex": bool(rng.random() < 0.25),
                 "foreign": int(rng.integers(1, 1 << 20)) if rng.random() < 0.3 else 0,
+                "patch": ({"travel": bool(rng.random() < 0.5)} if rng.random() < 0.2 else None),
             }
         else:
             kind = simlib.SIM_MODEL[actor][0]
@@ -226,6 +252,8 @@ class AsmWorld(World):
     def gen_op(self, rng, frng):
         w = {"assemble": 6, "values": 2, "slots": 1.5, "complex": 0.5, "lagrange": 1.5, "dirichlet": 1.5, "bc_init": 0.7,
              "setmesh": 1, "permute": 1.5, "coord": 1, "kcmf": 2, "need_update": 0.5, "save_set_iter": 0.7}
+        if self.actor == "mixed" and (self.cfg["spec"].get("patch") or {}).get("travel"):
+            w["move_patch"] = 2.5
         if self.actor != "mixed":
             w["slots"] = w["complex"] = 0
         if self.actor == "PhaseField":
@@ -482,6 +510,15 @@ class AsmWorld(World):
                 sim.Need_Update()
             return "ok"
 
+        if name == "move_patch":
+            # the user-built boundary patches move along the boundary (a travelling load / contact zone): other groups of
+            # the same element type and size contribute from the next assembly on
+            sim.patch_shift = getattr(sim, "patch_shift", 0) + 1
+            with ctx.sut():
+                sim.Need_Update()
+            ctx.probe("user_patches_moved")
+            return "ok"
+
         if name == "save_set_iter":
             if self.actor == "PhaseField":
                 return "skip"
@@ -518,7 +555,7 @@ class AsmWorld(World):
         if self.jittered:
             return ("jittered", self.ctx.mutations)
         if self.actor == "mixed":
-            return (self.spec["vseed"], tuple(sorted(self.spec["slots"].items())), bool(self.spec.get("complex")))
+            return (self.spec["vseed"], tuple(sorted(self.spec["slots"].items())), bool(self.spec.get("complex")), getattr(self.sim, "patch_shift", 0))
         return tuple(sorted((k, str(v)) for k, v in self.params.items()))
 
     def observe(self):
